@@ -78,4 +78,44 @@ theorem full_run (F : Flattener π K) (n : Nat) (s : FlatB π K) (prog : List (C
       simp only [FlatB.run, FlatB.specRun, FlatB.step, FlatB.specStep]
       rw [ih s hlen hl]
 
+/-! ### the reference flattening seen through `iter_with_attributes` -/
+
+theorem interp_eq_interpI (fa ta : List K) (t : K) : interp fa ta t = interpI fa ta t := by
+  simp only [interp, interpI]
+  congr 1; funext f g
+  show f * (((1 : ℕ) : K) - t) + g * t = (((1 : ℕ) : K) - t) * f + t * g
+  ring
+
+/-- the segments of one curve form a chain starting at `a`: each `line.from` is the previous
+`line.to` (C09 `…/connected`) -/
+def Chained (a : π) : List (FSeg π K) → Prop
+  | [] => True
+  | s :: r => s.a = a ∧ Chained s.b r
+
+/-- the endpoint (with attributes) reached after the lines of one curve -/
+noncomputable def endAP (fa ta : List K) : AP π K → List (FSeg π K) → AP π K
+  | cur, [] => cur
+  | _, s :: r => endAP fa ta (s.b, interp fa ta s.t) r
+
+theorem endAP_snoc (fa ta : List K) (cur : AP π K) (l : List (FSeg π K)) (x : FSeg π K) :
+    endAP fa ta cur (l ++ [x]) = (x.b, interp fa ta x.t) := by
+  induction l generalizing cur with
+  | nil => rfl
+  | cons s r ih => simpa [endAP] using ih _
+
+/-- the events (with attributes) denoted by the reference lines of one curve are exactly the
+callbacks of `for_each_flattened` -/
+theorem specFrom_specLines (f : AP π K) (a0 : π) (ca fa ta : List K) (segs : List (FSeg π K))
+    (hch : Chained a0 segs) (rest : List (Call (AP π K) (List K))) :
+    specFrom (some (f, (a0, ca))) ((specLines segs fa ta).map aCall ++ rest)
+      = linesA fa ta ca segs ++ specFrom (some (f, endAP fa ta (a0, ca) segs)) rest := by
+  induction segs generalizing a0 ca with
+  | nil => simp [specLines, linesA, endAP]
+  | cons s r ih =>
+    obtain ⟨h1, h2⟩ := hch
+    have := ih s.b (interp fa ta s.t) h2
+    simp only [specLines, List.map_cons, aCall, List.cons_append, specFrom, linesA, endAP,
+      ← interp_eq_interpI] at this ⊢
+    rw [this, h1]
+
 end Lyon.Adapt
